@@ -2,6 +2,7 @@ import Driver.Mon
 import AV.Spec.C20
 import AV.Spec.C06
 import AV.Spec.C02
+import AV.Spec.C17
 open Lean AV AV.Pub
 
 namespace Drv
@@ -555,6 +556,94 @@ def c02 (inp obs : Json) : Res :=
   match checkSteps obs c02Step with
   | none => { agree := agree, specOk := true, why := why,
               nontrivial := !inconclusive && (stepsOf obs).any fun (_, o) => (libTrace o).any fun e => e.name == "batchDeliver" }
+  | some m => { agree := agree, specOk := false, why := m ++ (if agree then "" else " | " ++ why) }
+
+/-! #### C17 -/
+
+def fwdDepthOf (evs : List RecEv) : Int :=
+  match evs.find? fun e => e.name == "maxFwdDepth" with
+  | some e => e.resp.getInt?.toOption.getD 0
+  | none => 3
+
+structure FwdAcc where
+  recorded : List Iri := []      -- activity ids a successful Create of an earlier forwarding stage recorded
+  bad : Option String := none
+  known : String := ""           -- a recorded finding was observed (and nothing else)
+
+open AV.Spec.C17 in
+def c17Step (acc : FwdAcc) (i : Nat) (sin sobs : Json) : FwdAcc :=
+  if acc.bad.isSome then acc else
+  let evs := libTrace sobs
+  if jstr sin "entry" != "postInbox" then acc else
+  if (sobs.getObjVal? "panic").toOption.isSome then acc else
+  let body := jget sin "body"
+  if jstr body "k" != "val" then acc else
+  let v := J.norm (toJ (jget body "v"))
+  let vid := Val.idGet v
+  -- the forwarding stage: from its Exists check on
+  let fwd := evs.dropWhile fun e => e.name != "exists"
+  -- the lock that precedes Exists belongs to it too; it does not matter to the monitor
+  let fail (m : String) : FwdAcc := { acc with bad := some s!"step {i}: {m}" }
+  match monRun (fwdMon facts v) {} fwd with
+  | .error (k, what) => fail s!"forwarding event {k} ({what}): recorded twice / filter consulted or transport used without the three conditions / payload or recipients differ"
+  | .ok st =>
+  let acc' : FwdAcc := if st.recorded then { acc with recorded := acc.recorded ++ [vid] } else acc
+  -- the decision, against ground truth (only when nothing failed and the request went through)
+  let faulty := evs.any fun e => isErr e.resp
+  let status200 := evs.any fun e => e.name == "writeHeader" && (e.args.getD 0 Json.null).getNat?.toOption == some 200
+  let truth := jget sin "remoteDocs"
+  if faulty || !status200 || truth.isNull then acc' else
+  let ownedL := jIris (jget sin "owned")
+  let owns (u : Iri) : Bool := ownedL.contains u
+  let derefs : List (Iri × Json) := evs.filterMap fun e => if e.name == "deref" then some ((e.args.getD 0 Json.null).getStr?.toOption.getD "", e.resp) else none
+  let G : Iri → E Doc := fun u => match (truth.getObjVal? u).toOption with
+    | some resp => (eDoc resp).getD (.error .injected)
+    | none => (match derefs.find? (fun d => d.1 == u) with
+      | some (_, resp) => (eDoc resp).getD (.error .injected)
+      | none => .error .injected)
+  let depth : Int := fwdDepthOf evs
+  let seenBefore := acc.recorded.contains vid
+  -- owned collections among to/cc/audience: decided by the Get answers of the loading phase
+  let loadedCols := st.loaded
+  let asked := fwd.any fun e => e.name == "filterForwarding"
+  let delivered := fwd.any fun e => e.name == "batchDeliver"
+  let toSendEmpty := fwd.any fun e => e.name == "filterForwarding" && !isErr e.resp
+  -- a badly typed document on the way makes the search fail rather than answer; such runs end in an error (not 200)
+  if seenBefore then
+    (if asked || delivered || st.creates > 0 then fail "an activity this server had already recorded was recorded or forwarded again" else acc')
+  else
+    let addressedIds := ["to", "cc", "audience"].flatMap fun p => match Val.prop facts v p with
+      | some xs => (match Val.idsOf facts xs with | .ok ids => ids | .error _ => [])
+      | none => []
+    let couldLoad := addressedIds.any owns
+    if depth ≤ 0 then acc' else
+    let expectFwd := couldLoad && !loadedCols.isEmpty && ownsValueSpec facts G owns depth.toNat v
+    if st.creates == 0 then fail "the activity was not recorded as seen although it had not been seen before"
+    else if expectFwd && !asked then fail "all three forwarding conditions hold but the activity was not forwarded"
+    else if !expectFwd && asked && !loadedCols.isEmpty then fail "forwarded although no inReplyTo/object/target/tag value within the depth limit is owned"
+    else if asked && toSendEmpty && !delivered then fail "the filter answered but nothing was handed to the transport"
+    else
+      -- recorded finding C17-member-ids: the transport is given the members' ids, not their inboxes
+      let storedTruth := jget sin "inboxFor"
+      let inboxOf (m : Iri) : Option Iri := match (storedTruth.getObjValAs? String m).toOption with
+        | some i => some i
+        | none => (match G m with
+          | .ok (.val doc) => inboxOfDoc doc
+          | _ => none)
+      let rs : List Iri := match fwd.find? fun e => e.name == "batchDeliver" with
+        | some e => jIris (e.args.getD 1 Json.null)
+        | none => []
+      if rs.any (fun m => match inboxOf m with | some i => i != m | none => false) then { acc' with known := "C17-member-ids" } else acc'
+
+def c17 (inp obs : Json) : Res :=
+  let (agree, why, inconclusive) := replayAll inp obs
+  let acc := (stepsOf obs).zipIdx.foldl (fun (acc : FwdAcc) ((sin, sobs), i) => c17Step acc i sin sobs) {}
+  match acc.bad with
+  | none =>
+    if acc.known != "" then
+      { agree := agree, specOk := false, known := acc.known, why := "forwarded to the ids of the collection members, not to their inboxes" ++ (if agree then "" else " | " ++ why) }
+    else { agree := agree, specOk := true, why := why,
+              nontrivial := !inconclusive && (stepsOf obs).any fun (_, o) => (libTrace o).any fun e => e.name == "exists" }
   | some m => { agree := agree, specOk := false, why := m ++ (if agree then "" else " | " ++ why) }
 
 def pubGeneric (_prop : String) (inp obs : Json) : Res :=
